@@ -1,0 +1,61 @@
+//go:build verif
+
+package rvole_bbot
+
+import (
+	"slices"
+)
+
+// This file is compiled only with the build tag `verif`. It adds read-only accessors used by the
+// external verification harness (/verif); it changes no behaviour and no existing declaration.
+
+// VerifGadget returns a copy of the gadget vector g.
+func (alice *Alice[G, S]) VerifGadget() []S { return slices.Clone(alice.g) }
+
+// VerifGadget returns a copy of the gadget vector g.
+func (bob *Bob[G, S]) VerifGadget() []S { return slices.Clone(bob.g) }
+
+// VerifAlpha returns a copy of the OT sender messages alpha[j][0|1][i] (nil before Alice received them).
+func (alice *Alice[G, S]) VerifAlpha() [][2][]S {
+	if alice.alpha == nil {
+		return nil
+	}
+	out := make([][2][]S, len(alice.alpha))
+	for j := range alice.alpha {
+		out[j][0] = slices.Clone(alice.alpha[j][0])
+		out[j][1] = slices.Clone(alice.alpha[j][1])
+	}
+	return out
+}
+
+// VerifBeta returns a copy of Bob's packed choice bits beta (nil before they are fixed).
+func (bob *Bob[G, S]) VerifBeta() []byte { return slices.Clone(bob.beta) }
+
+// VerifGamma returns a copy of the OT receiver messages gamma[j][i] (nil before Bob received them).
+func (bob *Bob[G, S]) VerifGamma() [][]S {
+	if bob.gamma == nil {
+		return nil
+	}
+	out := make([][]S, len(bob.gamma))
+	for j := range bob.gamma {
+		out[j] = slices.Clone(bob.gamma[j])
+	}
+	return out
+}
+
+// VerifOracle snapshots the participant's session context and returns a function that evaluates the two
+// random oracles of the consistency check, roTheta(aTilde) and then (if muBold != nil) roMu(muBold), exactly as the
+// participant would in the snapshotted state. Every evaluation runs on a fresh clone; the participant is not modified.
+func (p *participant[G, S]) VerifOracle() func(aTilde, muBold [][]S) (theta [][]S, mu []byte, err error) {
+	snapshot := p.ctx.Clone()
+	return func(aTilde, muBold [][]S) ([][]S, []byte, error) {
+		q := *p
+		q.ctx = snapshot.Clone()
+		theta, err := q.roTheta(aTilde)
+		if err != nil || muBold == nil {
+			return theta, nil, err
+		}
+		mu, err := q.roMu(muBold)
+		return theta, mu, err
+	}
+}
